@@ -35,7 +35,9 @@ META = {
         "R1 one engine: inside render code (everything reachable from DocutilsRenderer.render) markdown-it is entered only in "
         "nested_render_text, on the renderer's own parser (self.md), with the shared environment (self.md_env) and the text "
         "parameter; the inline flag selects parseInline; no second engine is built and render() is not re-entered; md/md_env "
-        "are bound once from the constructor/setup_render parameters; _render_tokens is reached only from render and "
+        "are bound once from the constructor/setup_render parameters, and nothing markdown-it registered in md_env is taken out "
+        "again (no clear/popitem, pop/del only of the keys MyST stores itself - a snapshot restored after a nested render loses "
+        "the reference definitions and footnotes registered in between); _render_tokens is reached only from render and "
         "nested_render_text (or helpers only they call); the mocks' nested entry points hand the text they were given to "
         "nested_render_text in the parsing mode (block/inline) of the docutils contract. "
         "R2 sibling fences: render_fence and render_colon_fence derive (name, arguments) from token.info by the same operations "
@@ -47,7 +49,8 @@ META = {
         "current_node_context appends (under its flag) before switching, switches, and restores the saved node. "
         "R4 state: every piece of renderer/document/env state changed around a nested render is put back to the value saved "
         "before it - in the context manager entered around _render_tokens (closure or method; followed through helpers) and in "
-        "the try/finally of the include mock (in run() itself or in a context manager it enters); the in-progress markers of the "
+        "the try/finally of the include mock (in run() itself or in a context manager it enters; restore by assignment of the "
+        "saved local, by swapping the mapping back, or by update() from a snapshot); the in-progress markers of the "
         "re-entrant renders (include stack, substitution reference set) are removed on every return/exception path after their "
         "insertion, and their keys are not computed relative to state that the same code swaps for the nested render, nor "
         "reduced to a file name. "
@@ -429,6 +432,20 @@ def _render_code(corpus: Corpus) -> dict:
 # R1 one engine
 
 
+def _module_const(fi: FunctionInfo, name: str, corpus: Corpus) -> ast.expr | None:
+    """Value of a module-level constant visible under ``name`` in the module of ``fi`` (own or imported from the package)."""
+    m = fi.module
+    if name in m.const_nodes:
+        return m.const_nodes[name]
+    full = m.imports.get(name)
+    if full and "." in full:
+        modname, _, attr = full.rpartition(".")
+        m2 = corpus.modules.get(modname)
+        if m2 is not None and attr in m2.const_nodes:
+            return m2.const_nodes[attr]
+    return None
+
+
 def _owner_class(fi: FunctionInfo):
     f = fi
     while f is not None and f.cls is None:
@@ -489,6 +506,12 @@ def _receiver_kind(call: ast.Call, fi: FunctionInfo, corpus: Corpus) -> tuple[st
             kinds_ = {origin(x, depth + 1) for v in _self_attr_values(fi, n.attr, corpus) for x in ast.walk(v)} - {None}
             if len(kinds_) == 1:
                 return kinds_.pop()
+        if isinstance(n, ast.Name) and depth < 3 and not _local_defs(fi, n.id) and n.id not in fi.params:
+            cv = _module_const(fi, n.id, corpus)
+            if cv is not None:
+                kinds_ = {origin(x, depth + 1) for x in ast.walk(cv)} - {None}
+                if len(kinds_) == 1:
+                    return kinds_.pop()
         if isinstance(n, ast.Call):
             full = fi.module.resolve(dotted(n.func) or "")
             if full.endswith("parsers.mdit.create_md_parser") or full in ("markdown_it.MarkdownIt", "markdown_it.main.MarkdownIt"):
@@ -635,6 +658,51 @@ def r1_one_engine(corpus: Corpus, rep: Report, tier: str):
                         rep.violation("C06.R1", k, site, f"`{short(n, 70)}` rebinds the renderer's .{leaf.attr}: nested parses after it no longer share the parser/environment of the document")
     if n_writers < 2:
         rep.error("C06.R1", f"expected the two bindings self.md (constructor) and self.md_env (setup_render), found {n_writers}")
+    # (c2) what markdown-it registered in the shared environment is never taken out again
+    own_keys: set[str] = set()
+    env_stores = 0
+    for fi in corpus.all_functions():
+        for n in fi.local_nodes() if not fi.is_lambda else []:
+            if isinstance(n, ast.Assign):
+                for t in n.targets:
+                    if isinstance(t, ast.Subscript) and (dotted(t.value) or "").split(".")[-1] == "md_env" and isinstance(t.slice, ast.Constant):
+                        own_keys.add(t.slice.value)
+                        env_stores += 1
+    for fi in corpus.all_functions():
+        if fi.is_lambda:
+            continue
+        for n in fi.local_nodes():
+            victim = None
+            how = ""
+            if isinstance(n, ast.Call) and isinstance(n.func, ast.Attribute):
+                recv = _deref(n.func.value, fi) if isinstance(n.func.value, ast.Name) else n.func.value
+                if (dotted(recv) or "").split(".")[-1] != "md_env":
+                    continue
+                if n.func.attr in ("clear", "popitem"):
+                    victim, how = n, f"{n.func.attr}() empties the environment"
+                elif n.func.attr == "pop" and n.args:
+                    if isinstance(n.args[0], ast.Constant):
+                        if n.args[0].value not in own_keys:
+                            victim, how = n, f"pop({n.args[0].value!r}) removes a key that only markdown-it / its plugins write"
+                    else:
+                        rep.listed("C06.R1", f"{fi.fq}|{short(n, 60)}", fi.module.site(n), "removal of a computed key from md_env (not judged)")
+            elif isinstance(n, ast.Delete):
+                for t in n.targets:
+                    if isinstance(t, ast.Subscript) and (dotted(t.value) or "").split(".")[-1] == "md_env" and isinstance(t.slice, ast.Constant) and t.slice.value not in own_keys:
+                        victim, how = n, f"del of {t.slice.value!r}, a key that only markdown-it / its plugins write"
+            if victim is not None:
+                rep.violation(
+                    "C06.R1",
+                    f"{fi.fq}|{short(victim, 60)} drops entries of the shared environment",
+                    fi.module.site(victim),
+                    f"`{short(victim, 60)}`: {how}; reference definitions, footnotes and duplicate-definition records that a nested parse (directive body, included file) "
+                    "registered there are lost, so they are no longer usable from the rest of the document - restoring a snapshot afterwards does not bring back keys created in between",
+                )
+    k = "md_env|entries registered by markdown-it are never removed (no clear/popitem; pop/del only of keys MyST stores itself)"
+    if env_stores >= 2:
+        rep.ok("C06.R1", k, corpus.func(f"{RENDERER}.setup_render").site(), f"keys MyST stores itself: {sorted(own_keys)}")
+    else:
+        rep.error("C06.R1", f"expected MyST's own stores into md_env (temp_root_node, relative-images, relative-docs), found {env_stores}")
     # render hands its own env parameter to setup_render
     sc = [c for c in _fn_calls(render) if any(t.fq == setup.fq for t in g.flat_targets(g.resolve_call(c, render)))]
     k = f"{render.fq}|setup_render receives render's env parameter"
@@ -1314,6 +1382,14 @@ def _r4_include(corpus: Corpus, rep: Report) -> None:
                         defs = _local_defs(owner, n.value.id)
                         if len(defs) == 1 and _state_key(defs[0][1]) == cont and unparse(defs[0][1]) == cont and icfg.dominates(defs[0][0], tr):
                             restored = n  # the mapping itself is swapped for the include and put back
+            if restored is None and key.endswith("]") and "[" in key:
+                cont = key[: key.rindex("[")]
+                for n in fin_nodes:
+                    # <container>.update(<snapshot>) with snapshot = dict(<container>) / <container>.copy() taken before the try
+                    if isinstance(n, ast.Call) and isinstance(n.func, ast.Attribute) and n.func.attr == "update" and _state_key(n.func.value) == cont and len(n.args) == 1 and isinstance(n.args[0], ast.Name):
+                        defs = _local_defs(owner, n.args[0].id)
+                        if len(defs) == 1 and unparse(defs[0][1]) != cont and _state_key(defs[0][1]) == cont and icfg.dominates(defs[0][0], tr):
+                            restored = n  # every key gets back the value of the snapshot
             removed = None
             unknown = None
             for n in fin_nodes:
@@ -1955,6 +2031,11 @@ def r6_text_conserved(corpus: Corpus, rep: Report, tier: str):
             if isinstance(n, ast.Attribute) and isinstance(n.value, ast.Name) and n.value.id == "self" and isinstance(n.ctx, ast.Load):
                 for v in _self_attr_values(f, n.attr, corpus):
                     envs += [(c, f) for c in ast.walk(v) if is_env(c, f)]
+        for n in f.local_nodes():
+            if isinstance(n, ast.Name) and isinstance(n.ctx, ast.Load) and not _local_defs(f, n.id) and n.id not in f.params:
+                cv = _module_const(f, n.id, corpus)
+                if cv is not None:
+                    envs += [(c, f) for c in ast.walk(cv) if is_env(c, f)]
     envs = list({id(c): (c, f) for c, f in envs}.values())
     if not envs:
         raise Unsupported("render_substitution: the jinja2 Environment construction was not found (looked in the function, its helpers and the instance attributes they read)")
@@ -2139,6 +2220,25 @@ def mutants(corpus: Corpus):
     np_ = mk.func("MockState.nested_parse")
     c = find_node(np_, lambda n: is_call(n, "nested_render_text"))
     add("c06-nested-parse-renders-other-text", "C06.R1", mk, c.args[0] if c and c.args else None, '"\\n".join(self.state_machine.input_lines)', "MockState.nested_parse")
+
+    # class: entries of the shared environment taken out again around a nested render
+    tr_i = find_node(inc, lambda n: isinstance(n, ast.Try) and n.finalbody and any(is_call(x, "nested_render_text") for x in ast.walk(n)))
+    if tr_i is not None:
+        rest = sorted((n for s_ in tr_i.finalbody for n in ast.walk(s_) if isinstance(n, ast.Assign) and isinstance(n.targets[0], ast.Subscript) and unparse(n.targets[0].value).endswith("md_env")), key=lambda n: n.lineno)
+        if len(rest) >= 2:
+            env_txt = unparse(rest[0].targets[0].value)
+            src = splice(mk.src, rest[-1], f"{env_txt}.update(env_before)")
+            t_ = ast.parse(src)
+            first = sorted((n for n in ast.walk(t_) if isinstance(n, ast.Assign) and n.lineno == rest[0].lineno), key=lambda n: n.col_offset)[0]
+            src = splice(src, first, f"{env_txt}.clear()")
+            t_ = ast.parse(src)
+            tr2 = next(n for n in ast.walk(t_) if isinstance(n, ast.Try) and n.lineno == tr_i.lineno)
+            out.append(Mutant("c06-include-rolls-back-env-from-snapshot", "C06.R1", mk.rel, splice(src, tr2, f"env_before = dict({env_txt})\n" + _indent(mk, tr_i) + (ast.get_source_segment(src, tr2) or "")), expect="drops entries of the shared environment"))
+            add("c06-include-deletes-wordcount", "C06.R1", mk, rest[-1], _seg(mk, rest[-1]) + "\n" + _indent(mk, rest[-1]) + f'{env_txt}.pop("wordcount", None)', "drops entries of the shared environment")
+        else:
+            out.append(("c06-include-rolls-back-env-from-snapshot", "md_env restores not found in the include's finally"))
+    c = find_node(nrt, lambda n: isinstance(n, ast.With))
+    add("c06-nested-render-forgets-duplicate-refs", "C06.R1", base, c, _seg(base, c) + "\n" + _indent(base, c) + 'del self.md_env["duplicate_refs"]' if c is not None else "", "drops entries of the shared environment")
 
     # ---- R2
     c = find_node(cf, lambda n: is_call(n, "strip") and unparse(n.func.value).endswith(".info"))
